@@ -10,7 +10,7 @@ R-TFLAGKEEP the IOAPI wrapper does not regenerate the time-flag variable that th
 import ast
 import itertools
 
-from ..engine import AnalysisError, dotted, iter_stmts, norm, walk_expr, const_str, kw
+from ..engine import AnalysisError, dotted, iter_stmts, norm, walk_expr, const_str, kw, parent_chain
 from ..report import Finding
 from .. import api
 from .c06 import drops_mask
@@ -283,6 +283,72 @@ def run(ctx):
                               'slices the time flags no longer are the selected elements'))
     else:
         ctx.ok('R-TFLAGKEEP', 'ioapi wrapper', w2, 'no forced regeneration of TFLAG after the base selection')
+    # 4a'. the wrapper drops the ROW and COL dimensions only when both were selected by index arrays (finite case analysis)
+    ctx.rule('R-DELROWCOL', 'IOAPI wrapper: ROW and COL dimensions are deleted only when both ROW and COL are index arrays')
+    from .. import consteval as _ce
+    dset = [st for st in iter_stmts(wf.body) if isinstance(st, ast.Assign) and norm(st.targets[0]) == 'deleterowcol' and isinstance(st.value, ast.Constant) and st.value.value is True]
+    if not dset:
+        ctx.undec('R-DELROWCOL', 'guard', w2, 'deleterowcol = True not found')
+    else:
+        guards = [p_ for p_ in parent_chain(dset[0]) if isinstance(p_, ast.If)]
+        pre = [st for st in wf.body if isinstance(st, ast.Assign) and len(st.targets) == 1 and isinstance(st.targets[0], ast.Name) and st.lineno < dset[0].lineno
+               and st.targets[0].id not in ('outf', 'dimslices', 'isarray', 'deleterowcol')]
+        cases = [({'ROW': True, 'COL': True}, True), ({'ROW': True, 'COL': True, 'LAY': True}, True), ({'ROW': False, 'COL': True, 'LAY': True, 'TSTEP': True}, False),
+                 ({'ROW': False, 'COL': False, 'LAY': True, 'TSTEP': True}, False), ({'ROW': True, 'COL': False, 'TSTEP': True}, False), ({'ROW': False, 'COL': False}, False)]
+        wrong = unk = None
+        for isarr_, want in cases:
+            env = _ce.run_block(pre, {'isarray': dict(isarr_), 'dimslices': dict(isarr_), 'kwds': dict((k_, 0) for k_ in isarr_), 'newdims': ('POINTS',)}, want_env=True)
+            if env is _ce.UNK:
+                unk = isarr_
+                continue
+            val = True
+            for g_ in guards:
+                v_ = _ce.ev(g_.test, env)
+                if v_ is _ce.UNK:
+                    val = _ce.UNK
+                    break
+                val = val and bool(v_)
+            if val is _ce.UNK:
+                unk = isarr_
+            elif bool(val) != want:
+                wrong = (isarr_, bool(val))
+                break
+        if wrong:
+            ctx.violation(Finding('R-DELROWCOL', 'cmaqfiles/_ioapi.py', 'ioapi_base.sliceDimensions', guards[0], 'with index arrays on %s (ROW: %s, COL: %s) the ROW and COL dimensions are %s: variables of the result still use them, '
+                                  'so the dimension table no longer matches the variables' % (sorted(k_ for k_, v_ in wrong[0].items() if v_), 'array' if wrong[0]['ROW'] else 'slice/int', 'array' if wrong[0]['COL'] else 'slice/int',
+                                                                                              'deleted' if wrong[1] else 'kept')))
+        elif unk:
+            ctx.undec('R-DELROWCOL', 'guard', w2, 'guard outside the evaluated fragment')
+        else:
+            ctx.ok('R-DELROWCOL', 'guard', w2, '%d selector-kind cases' % len(cases))
+    # 4a''. the string form: 'dim,i' is one index, an explicit None stop is open-ended (finite case analysis of the field parsing)
+    ctx.rule('R-SLICEDEF', "slice_dim: 'dim,i' -> i:i+1 ; 'dim,a,b[,s]' -> a:b[:s] with None kept as open end")
+    sdf = ctx.src.mod('core/_functions.py').func('slice_dim')
+    wsd = 'src/PseudoNetCDF/core/_functions.py slice_dim'
+    start = [i for i, st in enumerate(sdf.body) if isinstance(st, ast.Assign) and 'map(eval' in norm(st.value)]
+    stop = [i for i, st in enumerate(sdf.body) if isinstance(st, ast.If) and 'not in inf.dimensions' in norm(st.test)]
+    if not start or not stop:
+        ctx.undec('R-SLICEDEF', 'parse', wsd, 'field parsing statements not located')
+    else:
+        seg = sdf.body[start[0] + 1:stop[0]]
+        wrong = unk = None
+        for fields, want in ((['x', 2], (2, 3, None)), (['x', 0], (0, 1, None)), (['x', 1, 4], (1, 4, None)), (['x', 1, None], (1, None, None)), (['x', 1, None, 2], (1, None, 2)),
+                             (['x', None, 3], (None, 3, None)), (['x', 0, 6, 2], (0, 6, 2))):
+            env = _ce.run_block(seg, {'slicedef': list(fields)}, want_env=True)
+            if env is _ce.UNK or any(env.get(k_, _ce.UNK) is _ce.UNK for k_ in ('dmin', 'dmax', 'dstride')):
+                unk = fields
+                continue
+            got = (env['dmin'], env['dmax'], env['dstride'])
+            if got != want:
+                wrong = (fields, got, want)
+                break
+        if wrong:
+            ctx.violation(Finding('R-SLICEDEF', 'core/_functions.py', 'slice_dim', seg[0], "the definition %s is parsed as start:stop:step = %s instead of %s: the hyperslab and the new dimension length are wrong" % (
+                ','.join(str(x) for x in wrong[0]), wrong[1], wrong[2])))
+        elif unk:
+            ctx.undec('R-SLICEDEF', 'parse', wsd, 'parsing outside the evaluated fragment for %s' % unk)
+        else:
+            ctx.ok('R-SLICEDEF', 'parse', wsd, '7 definitions (index, range, open end, stride) parsed as stated')
     # 4b. integers become unit slices that select exactly one element for every integer, including -1 (finite case analysis)
     ctx.rule('R-UNITSLICE', 'slice(si, <stop>) selects exactly one element for negative, -1, zero and positive integers')
     us = [c for c in walk_expr(branch.orelse[0] if branch.orelse else fn) if False]
